@@ -36,6 +36,10 @@ type ProofCase struct {
 	Full bool `json:"full,omitempty"`
 }
 
+// keyIndexUnbound: VerifyDiffProof / VerifyFreeSectorsProof accept a proof built for one set
+// of sector indices under an index list that refers to a different set (see TestKnown).
+const keyIndexUnbound = "C16/diff-verify/index-unbound"
+
 // small cache so that enumerators do not rebuild the same tree for every (start,end)
 var treeCache struct {
 	seed uint64
@@ -587,9 +591,21 @@ func checkDiff(c ProofCase) error {
 		}
 	}
 	// covered data of appends
+	survives := func(i int) bool { // an appended sector that is trimmed or overwritten again is not covered by the new root
+		for _, h := range newList {
+			if h == appendRoots[i] {
+				return true
+			}
+		}
+		return false
+	}
 	if !v4 && nApp > 0 {
 		if appendData == nil {
 			for _, i := range positions(nApp, full, &rng) {
+				if !survives(i) {
+					stats.G().Label("diff:append-not-surviving-skipped")
+					continue
+				}
 				ar := cloneH(appendRoots)
 				ar[i] = flipBit(ar[i], rng.next())
 				if err := rj.must("append-root", verifyWith(nil, wactions, wantTree, wantLeaf, oldRoot, newRoot, ar), "appendRoots[%d]", i); err != nil {
@@ -599,22 +615,42 @@ func checkDiff(c ProofCase) error {
 		} else {
 			i := int(rng.next() % uint64(nApp))
 			pos := rng.next() % rhp2.SectorSize
-			appendData[i][pos] ^= 0x10
-			acc := verify(wantTree, wantLeaf, oldRoot, newRoot)
-			appendData[i][pos] ^= 0x10
-			if err := rj.must("append-data", acc, "byte %d of the data of append #%d", pos, i); err != nil {
-				return err
+			if survives(i) {
+				appendData[i][pos] ^= 0x10
+				acc := verify(wantTree, wantLeaf, oldRoot, newRoot)
+				appendData[i][pos] ^= 0x10
+				if err := rj.must("append-data", acc, "byte %d of the data of append #%d", pos, i); err != nil {
+					return err
+				}
+			} else {
+				stats.G().Label("diff:append-not-surviving-skipped")
 			}
 		}
 	}
 	// indices: alter one index / one action operand, keep the list admissible; skip the
 	// alterations that describe the very same operation (same touched set, same result)
-	equivalent := func(acts2 []Act) (bool, bool) {
+	// classify says whether an altered list is admissible, and if so whether it skips the
+	// assertion: "equivalent" (nothing false is being claimed) or in the class of the open
+	// known finding keyIndexUnbound (altered list refers to a different set of old sectors).
+	classify := func(acts2 []Act, call func() bool) (skip, ok bool) {
 		nl, tc, ok := refApply(leaves, acts2, appendRoots)
 		if !ok {
 			return false, false
 		}
-		return sameInts(tc, touched) && eqHashes(nl, newList), true
+		if sameInts(tc, touched) && eqHashes(nl, newList) {
+			stats.G().Label(c.Kind + ":equivalent-alteration-skipped")
+			return true, true
+		}
+		if !sameInts(tc, touched) && stats.KnownOpen(keyIndexUnbound) && call() {
+			// the open known finding: tolerated (and counted) only where it actually manifests;
+			// every other alteration of this kind is still required to be rejected below
+			stats.G().Excluded(keyIndexUnbound)
+			if n <= 16 {
+				stats.G().Label(fmt.Sprintf("known-accepted: n=%d proof-for=%v%v presented-as=%v", n, c.Freed, c.Acts, acts2))
+			}
+			return true, true
+		}
+		return false, true
 	}
 	if v4 {
 		used := map[uint64]bool{}
@@ -636,20 +672,20 @@ func checkDiff(c ProofCase) error {
 				}
 				f2 := append([]uint64{}, c.Freed...)
 				f2[k] = x
-				if eq, _ := equivalent(freeActs(f2, n)); eq {
-					stats.G().Label("free:equivalent-index-skipped")
+				call := func() bool { return verifyWith(f2, nil, wantTree, wantLeaf, oldRoot, newRoot, nil) }
+				if skip, _ := classify(freeActs(f2, n), call); skip {
 					continue
 				}
-				if err := rj.must("index", verifyWith(f2, nil, wantTree, wantLeaf, oldRoot, newRoot, nil), "freed[%d] %d -> %d", k, c.Freed[k], x); err != nil {
+				if err := rj.must("index", call(), "freed[%d] %d -> %d", k, c.Freed[k], x); err != nil {
 					return err
 				}
 			}
 			if k+1 < len(c.Freed) {
 				f2 := append([]uint64{}, c.Freed...)
 				f2[k], f2[k+1] = f2[k+1], f2[k]
-				if eq, _ := equivalent(freeActs(f2, n)); eq {
-					stats.G().Label("free:equivalent-order-skipped")
-				} else if err := rj.must("index-order", verifyWith(f2, nil, wantTree, wantLeaf, oldRoot, newRoot, nil), "freed[%d] and freed[%d] exchanged", k, k+1); err != nil {
+				call := func() bool { return verifyWith(f2, nil, wantTree, wantLeaf, oldRoot, newRoot, nil) }
+				if skip, _ := classify(freeActs(f2, n), call); skip {
+				} else if err := rj.must("index-order", call(), "freed[%d] and freed[%d] exchanged", k, k+1); err != nil {
 					return err
 				}
 			}
@@ -668,15 +704,14 @@ func checkDiff(c ProofCase) error {
 			for _, alt := range alts {
 				acts2 := append([]Act{}, acts...)
 				acts2[k] = alt
-				eq, ok := equivalent(acts2)
-				if !ok {
-					continue // out of bounds for the list at that moment: outside the verifier's preconditions
+				call := func() bool {
+					return verifyWith(nil, toV2(acts2, appendData), wantTree, wantLeaf, oldRoot, newRoot, passRoots)
 				}
-				if eq {
-					stats.G().Label("diff:equivalent-action-skipped")
-					continue
+				skip, ok := classify(acts2, call)
+				if !ok || skip {
+					continue // !ok: out of bounds for the list at that moment, outside the verifier's preconditions
 				}
-				if err := rj.must("index", verifyWith(nil, toV2(acts2, appendData), wantTree, wantLeaf, oldRoot, newRoot, passRoots), "action %d %+v -> %+v", k, a, alt); err != nil {
+				if err := rj.must("index", call(), "action %d %+v -> %+v", k, a, alt); err != nil {
 					return err
 				}
 			}
